@@ -129,53 +129,7 @@ func TestTableHTTPStatus(t *testing.T) {
 	statuses := []int{-1, 0, 100, 200, 299, 300, 301, 302, 399, 400, 401, 403, 404, 405, 408, 410, 451, 499, 500, 501, 503, 504, 599, 600, 1000}
 	hdrNames := []string{"Content-Type", "content-type", "CONTENT-TYPE", "Access-Control-Allow-Origin", "access-control-allow-origin",
 		"Access-Control-Allow-Credentials", "access-control-allow-credentials", "X-Test", "x-test", "Set-Cookie", "set-cookie", "Vary", "Location"}
-	run := func(cfg ScenarioCfg, row Rec, c httpCase) {
-		synctest.Test(t, func(t *testing.T) {
-			cfg.Free = true
-			cfg.Family = "http"
-			if cfg.Resources == nil {
-				cfg.Resources = map[string]SimRes{"m": {Kind: "m", M: map[string]Val{"x": {T: "p", V: "1"}}}}
-			}
-			w := NewWorld(t, cfg)
-			mark := len(w.Log())
-			w.Do(Step{Op: "http", C: "h1", Method: c.method, Path: c.path, Hdr: c.hdr})
-			reqs := []any{}
-			for i := 0; i < 10; i++ {
-				rs := w.mq.pendingReqs()
-				if len(rs) == 0 {
-					break
-				}
-				r := rs[0]
-				beh := c.final
-				switch {
-				case r.typ == "auth" && cfg.HeaderAuth != "":
-					beh = c.auth
-				case r.typ == "access":
-					beh = c.access
-				}
-				out := beh[0]
-				if out == "" {
-					out = "ok"
-				}
-				reqs = append(reqs, r.typ)
-				w.sim.reply(r, out, beh[1], beh[2])
-				synctest.Wait()
-				w.drainFrames()
-			}
-			w.Drain()
-			for _, r := range w.Log()[mark:] {
-				if r["e"] == "httpres" {
-					row["status"], row["hdr"], row["body"] = r["status"], r["hdr"], r["body"]
-				}
-			}
-			row["reqs"] = reqs
-			w.Teardown()
-		})
-		if _, ok := row["status"]; !ok {
-			row["status"], row["hdr"], row["body"] = 0, map[string]any{}, ""
-		}
-		enc.Encode(row)
-	}
+	run := func(cfg ScenarioCfg, row Rec, c httpCase) { httpRow(t, enc, cfg, row, c) }
 	// 1. error code -> status, on access (GET), on call (POST) and on get
 	for _, code := range codes {
 		run(ScenarioCfg{}, Rec{"kind": "code", "on": "access", "code": code, "method": "GET"}, httpCase{method: "GET", path: "/api/m", access: [3]string{"code:" + code}})
@@ -382,5 +336,184 @@ func TestTableWSUpgrade(t *testing.T) {
 		r := one(ScenarioCfg{WSHeaderAuth: "auth.login"}, "", "ok", fmt.Sprintf(`{"status":%d}`, st))
 		r["kind"], r["mstatus"] = "wsmeta", st
 		enc.Encode(r)
+	}
+}
+
+// httpRow runs one HTTP request through the real ServeHTTP with scripted service answers and writes the row.
+func httpRow(t *testing.T, enc *json.Encoder, cfg ScenarioCfg, row Rec, c httpCase) {
+	httpRowTo(t, cfg, row, c)
+	enc.Encode(row)
+}
+
+func httpRowTo(t *testing.T, cfg ScenarioCfg, row Rec, c httpCase) {
+	synctest.Test(t, func(t *testing.T) {
+		cfg.Free = true
+		cfg.Family = "http"
+		if cfg.Resources == nil {
+			cfg.Resources = map[string]SimRes{"m": {Kind: "m", M: map[string]Val{"x": {T: "p", V: "1"}}}}
+		}
+		w := NewWorld(t, cfg)
+		mark := len(w.Log())
+		w.Do(Step{Op: "http", C: "h1", Method: c.method, Path: c.path, Hdr: c.hdr})
+		reqs := []any{}
+		for i := 0; i < 10; i++ {
+			rs := w.mq.pendingReqs()
+			if len(rs) == 0 {
+				break
+			}
+			r := rs[0]
+			beh := c.final
+			switch {
+			case r.typ == "auth" && cfg.HeaderAuth != "":
+				beh = c.auth
+			case r.typ == "access":
+				beh = c.access
+			}
+			out := beh[0]
+			if out == "" {
+				out = "ok"
+			}
+			reqs = append(reqs, r.typ)
+			w.sim.reply(r, out, beh[1], beh[2])
+			synctest.Wait()
+			w.drainFrames()
+		}
+		w.Drain()
+		for _, r := range w.Log()[mark:] {
+			if r["e"] == "httpres" {
+				row["status"], row["hdr"], row["body"] = r["status"], r["hdr"], r["body"]
+			}
+		}
+		row["reqs"] = reqs
+		w.Teardown()
+	})
+	if _, ok := row["status"]; !ok {
+		row["status"], row["hdr"], row["body"] = 0, map[string]any{}, ""
+	}
+}
+
+
+// TestTableHTTPAccess: what an access response grants, seen from outside: every combination of result / get / call /
+// error members, with and without a meta member, answered to an HTTP GET and to HTTP POST calls of two methods.
+func TestTableHTTPAccess(t *testing.T) {
+	enc, done := openOut(t, "httpaccess")
+	defer done()
+	getOpt := map[string]string{"none": "", "true": `"get":true`, "false": `"get":false`}
+	callOpt := map[string]string{"none": "", "star": `"call":"*"`, "a": `"call":"a"`}
+	errOpt := map[string]string{"none": "", "notFound": `"error":{"code":"system.notFound","message":"x"}`, "denied": `"error":{"code":"system.accessDenied","message":"x"}`}
+	metaOpt := map[string]string{"none": "", "hdr": `{"header":{"X-Test":["v"]}}`, "s200": `{"status":200}`, "empty": `{}`}
+	for _, res := range []string{"object", "absent"} {
+		for gk, gv := range getOpt {
+			for ck, cv := range callOpt {
+				if res != "object" && (gk != "none" || ck != "none") {
+					continue
+				}
+				for ek, ev := range errOpt {
+					parts := []string{}
+					if res == "object" {
+						m := []string{}
+						for _, p := range []string{gv, cv} {
+							if p != "" {
+								m = append(m, p)
+							}
+						}
+						parts = append(parts, `"result":{`+strings.Join(m, ",")+`}`)
+					}
+					if ev != "" {
+						parts = append(parts, ev)
+					}
+					payload := "{" + strings.Join(parts, ",") + "}"
+					for mk, mv := range metaOpt {
+						for _, want := range []string{"get", "a", "b"} {
+							row := Rec{"res": res, "get": gk, "call": ck, "err": ek, "meta": mk, "want": want}
+							c := httpCase{method: "GET", path: "/api/m", access: [3]string{"rawacc:" + payload, "", mv}}
+							if want != "get" {
+								c.method, c.path = "POST", "/api/m/"+want
+							}
+							httpRowTo(t, cfg0(), row, c)
+							body, _ := row["body"].(string)
+							row["leak"] = strings.Contains(body, `"x":`) || strings.Contains(body, `"ok":`)
+							enc.Encode(row)
+						}
+					}
+				}
+			}
+		}
+	}
+}
+
+func cfg0() ScenarioCfg { return ScenarioCfg{} }
+
+// TestTableHTTPToken: the token carried by the requests of an HTTP call.  The service sets / replaces / revokes the
+// temporary connection's token while the header-auth and the access request are outstanding; every later request
+// must carry the token the connection holds when that request is sent.
+func TestTableHTTPToken(t *testing.T) {
+	enc, done := openOut(t, "httptoken")
+	defer done()
+	tokOf := func(r *mqReq) string {
+		var p struct {
+			Token json.RawMessage `json:"token"`
+		}
+		json.Unmarshal(r.payload, &p)
+		if len(p.Token) == 0 || string(p.Token) == "null" {
+			return "nil"
+		}
+		return string(p.Token)
+	}
+	for _, method := range []string{"POST", "PUT"} {
+		for _, init := range []string{"nil", `"t1"`} {
+			for _, evt := range []string{"none", "nil", `"t2"`} {
+				row := Rec{"method": method, "init": init, "evt": evt}
+				synctest.Test(t, func(t *testing.T) {
+					cfg := ScenarioCfg{Free: true, Family: "http", Resources: map[string]SimRes{"m": {Kind: "m", M: map[string]Val{"x": {T: "p", V: "1"}}}}}
+					path := "/api/m/act"
+					if method == "PUT" {
+						cfg.Mapped = true
+						path = "/api/m"
+					}
+					if init != "nil" {
+						cfg.HeaderAuth = "auth.login"
+					}
+					w := NewWorld(t, cfg)
+					mark := len(w.Log())
+					w.Do(Step{Op: "http", C: "h1", Method: method, Path: path})
+					seen := []any{}
+					for i := 0; i < 10; i++ {
+						rs := w.mq.pendingReqs()
+						if len(rs) == 0 {
+							break
+						}
+						r := rs[0]
+						seen = append(seen, map[string]any{"t": r.typ, "tok": tokOf(r)})
+						switch {
+						case r.typ == "auth" && cfg.HeaderAuth != "":
+							w.Do(Step{Op: "token", C: "h1", Tok: init})
+						case r.typ == "access" && evt != "none":
+							tok := evt
+							if tok == "nil" {
+								tok = "null"
+							}
+							w.Do(Step{Op: "token", C: "h1", Tok: tok})
+						}
+						synctest.Wait()
+						w.sim.reply(r, "ok", "")
+						synctest.Wait()
+						w.drainFrames()
+					}
+					w.Drain()
+					for _, r := range w.Log()[mark:] {
+						if r["e"] == "httpres" {
+							row["status"] = r["status"]
+						}
+					}
+					row["reqs"] = seen
+					w.Teardown()
+				})
+				if _, ok := row["status"]; !ok {
+					row["status"] = 0
+				}
+				enc.Encode(row)
+			}
+		}
 	}
 }
